@@ -62,7 +62,7 @@ def gen(rng, tier):
     n = 8 if tier == "quick" else 120
     cases = []
     for g in range(n):
-        s = coincident(rng) if g % 4 == 0 else (G.gen_twins(rng) if g % 4 == 2 else (G.gen_solvable(rng) if g % 2 else G.gen_frame(rng, max_cells=1)))
+        s = G.gen_name_collision(rng) if g == 3 else coincident(rng) if g % 4 == 0 else (G.gen_twins(rng) if g % 4 == 2 else (G.gen_solvable(rng) if g % 2 else G.gen_frame(rng, max_cells=1)))
         if len(s.bars) > 5:
             s.bars = s.bars[:5]
             ids = {b["id"] for b in s.bars}
